@@ -37,6 +37,7 @@ pub fn drive(run: usize, src: &str, strategy: usize, rng: &mut Rng, setup: &dyn 
     xs.set_insn_limit(Some(100_000)).unwrap();
     log.events.push(json!({"run": run, "ev": "reset", "d": dump_hash(&xs)}));
     let mut hist: Vec<String> = vec![dump_hash(&xs)];
+    let base = xs.verif_dump().rlog.len(); // steps recorded before the run starts (compile-time execution)
     let mut p = 1usize; // 1-based position like the specification
     let mut dirty = false;
 
@@ -71,6 +72,11 @@ pub fn drive(run: usize, src: &str, strategy: usize, rng: &mut Rng, setup: &dyn 
     }
     macro_rules! back {
         () => {{
+            if dirty && p == 1 && base > 0 && xs.verif_dump().rlog.len() <= base {
+                // the very first step failed without logging anything, and the log holds steps recorded while the source
+                // was compiled (an immediate word ran): one more rnext would leave the run (k <= n only); the run ends here
+                return log;
+            } else {
             let r = guarded(|| xs.rnext());
             match r {
                 Outcome::Panic(m) => {
@@ -91,6 +97,7 @@ pub fn drive(run: usize, src: &str, strategy: usize, rng: &mut Rng, setup: &dyn 
                         p -= 1;
                     }
                 }
+            }
             }
         }};
     }
